@@ -53,7 +53,11 @@ func VerifH_outgoing() {
 		h[k] = []string{"orig"}
 	}
 	var key string
-	switch c := vfChoice(9); c {
+	switch c := vfChoice(11); c {
+	case 9:
+		key = "grpc-previous-rpc-attempts" // starts with grpc- but is not one of the protocol's response keys
+	case 10:
+		key = "grpc-trace-bin"
 	case 0:
 		key = "content-type"
 	case 1:
@@ -97,6 +101,14 @@ func VerifH_outgoing() {
 		vfCover("custom-bin")
 	case "grpc-status-details-bin":
 		vfCover("details-bin")
+	case "grpc-previous-rpc-attempts":
+		vs := h["Grpc-Previous-Rpc-Attempts"]
+		vfCheck(len(vs) == 2 && vs[0] == val && vs[1] == "second", "handler metadata under a non-protocol grpc- key did not reach the response headers")
+		vfCover("grpc-prefixed-custom")
+	case "grpc-trace-bin":
+		vs := h["Grpc-Trace-Bin"]
+		vfCheck(len(vs) == 2 && vs[0] == refBase64Encode([]byte(val), false), "binary handler metadata under a non-protocol grpc- key did not reach the response headers")
+		vfCover("grpc-prefixed-custom")
 	}
 }
 
@@ -114,7 +126,13 @@ func VerifH_incoming() {
 	h["Content-Type"] = []string{"application/grpc"}
 	h["Grpc-Timeout"] = []string{"1S"}
 	h["User-Agent"] = []string{"ua"}
+	h["Grpc-Previous-Rpc-Attempts"] = []string{"3"} // grpc- prefix, not a protocol header
+	h["Grpc-Trace-Bin"] = []string{refBase64Encode(raw, pad)}
 	_, md := newIncomingContext(context.Background(), h)
+	pa := md["grpc-previous-rpc-attempts"]
+	vfCheck(len(pa) == 1 && pa[0] == "3", "a request header under a non-protocol grpc- key did not reach the metadata")
+	tb := md["grpc-trace-bin"]
+	vfCheck(len(tb) == 1 && tb[0] == string(raw), "a binary request header under a non-protocol grpc- key did not reach the metadata decoded")
 	vs := md["x-custom"]
 	vfCheck(len(vs) == 2 && vs[0] == v1 && vs[1] == v2, "custom request header did not reach the metadata intact")
 	bs := md["x-data-bin"]
